@@ -1465,6 +1465,55 @@ pub fn c16_into(rep: &mut Report) {
     }
 }
 
+
+/// QUIC handshakes that pass address validation and then stall: what the listener holds for them
+/// is released once the transport gives them up (C14: "a handshake that does not complete within
+/// its timeout is dropped, and the sockets and tasks of that connection are released").
+/// Observed through the live heap of this thread (the endpoint runs on it): (held while the
+/// handshakes are pending, held after their timeouts).
+pub async fn stalled_handshakes_case(n: usize) -> Result<(usize, usize, usize), Violation> {
+    let case = json!({"kind":"quic-stalled-handshakes","n":n});
+    let mach = |e: String| Violation::new("C14:machinery", e, json!({}));
+    let ep = start(Cfg { clients: users(), ..Cfg::default() }).await.map_err(mach)?;
+    // warm-up: one complete connection, so that lazily built state is not counted
+    {
+        let mut cl = QuicClient::new(ep.addr, &ClientOpts::default()).map_err(mach)?;
+        if !cl.handshake(Duration::from_secs(3)).await {
+            return Err(Violation::new("C14:machinery", "QUIC handshake failed", case));
+        }
+        cl.close();
+        cl.drive(Duration::from_millis(300), |_| false).await;
+    }
+    tokio::time::sleep(Duration::from_millis(1500)).await;
+    let meter = crate::engine::alloc::begin();
+    let mut stalled = 0usize;
+    for _ in 0..n {
+        let mut cl = QuicClient::new(ep.addr, &ClientOpts::default()).map_err(mach)?;
+        // first flight, the listener's Retry, the first flight again with the token: then silence
+        if cl.drive(Duration::from_millis(500), |c| c.received >= 1).await {
+            stalled += 1;
+        }
+        tokio::time::sleep(Duration::from_millis(2)).await;
+        drop(cl);
+    }
+    tokio::time::sleep(Duration::from_millis(100)).await;
+    let held = meter.live_above_start();
+    // quiche gives a silent peer up after its handshake timers (a few seconds)
+    let t0 = std::time::Instant::now();
+    let mut after = held;
+    while t0.elapsed() < Duration::from_secs(12) {
+        tokio::time::sleep(Duration::from_millis(250)).await;
+        after = meter.live_above_start();
+        if after * 8 <= held {
+            break;
+        }
+    }
+    if ep.task.is_finished() {
+        return Err(Violation::new("C14:h3:listener-ended", "the QUIC listener ended", case));
+    }
+    Ok((stalled, held, after))
+}
+
 pub fn c14_into(rep: &mut Report) {
     let mut classes = vec![];
     let r = crate::engine::explore::sweep_dyn(2, 1, Duration::from_secs(60), 2, |i| match super::guarded(|| run_blocking(idle_case(i == 1))) {
@@ -1477,6 +1526,27 @@ pub fn c14_into(rep: &mut Report) {
     }
     rep.sub.push(json!({"sub":"http3-idle-timer","cases":2,"classes":classes,"what":"HTTP/3 tunnel with a 1 s idle timeout in real time: idle => closed between 1 s and 3.2 s; a byte every 300 ms => open for 3.2 s"}));
     rep.violations(r.violations);
+    let n = 60;
+    match super::guarded(|| run_blocking(stalled_handshakes_case(n))) {
+        Ok(Ok((stalled, held, after))) => {
+            if std::env::var_os("VERIF_DEBUG").is_some() {
+                eprintln!("stalled handshakes: {stalled} of {n}, held {held}, after {after}");
+            }
+            if stalled < n / 2 || held < 64 * 1024 {
+                rep.violation(Violation::new("C14:machinery", format!("the stalled-handshake scenario did not build up state ({stalled} of {n} handshakes stalled, {held} bytes held)"), json!({})));
+            } else if after * 4 > held {
+                rep.violation(Violation::new(
+                    "C14:h3:stalled-handshakes-not-released",
+                    format!("{stalled} QUIC handshakes passed address validation and then stalled; the endpoint held {held} bytes for them and still holds {after} bytes 12 s later (the transport had given them up long before)"),
+                    json!({"kind":"quic-stalled-handshakes","n":n}),
+                ));
+            }
+            rep.sub.push(json!({"sub":"http3-stalled-handshakes","stalled":stalled,"held_bytes":held,"held_after_timeouts":after,
+                "what":"60 QUIC handshakes that pass address validation and then go silent: the heap held for them is released once the transport has given them up"}));
+        }
+        Ok(Err(v)) => rep.violation(v),
+        Err(p) => rep.violation(Violation::new("C14:h3:panic", p, json!({"kind":"quic-stalled-handshakes"}))),
+    }
 }
 
 pub fn c07_into(rep: &mut Report) {
